@@ -140,6 +140,12 @@ class C08(Prop):
             t ld,b0\nt cl,b0\nt cl,b0\nt cl,b0\nt ld,b1\nt ec,o5\nt mv,o3,o2\nt mv,o4,o2\nt mv,o5,o2\nsnap\nt cmd,o5,va\nt cmd,o5,vb\nsnap
             t mv,o5,o2\nsnap\nt cmd,o5,va\nsnap\nt cmd,o5,va\nt cmd,o5,vc\nt dc,o5\nt cmd,o5,vb\nt ec,o5\nt aa,o2,vc\nt aa,o6,vc\nt cmd,o5,vc\nt de,o4\nt cmd,o5,vb\n""" + tail)
         mk("sentence-of-destructed-lingers", """t ld,b0\nt cl,b0\nt cl,b0\nt mv,o3,o2\nt mv,o4,o2\nt ec,o3\nt aa,o4,va\nsnap\nt dc,o3\nt de,o4\nsnap\nt ec,o3\nt cmd,o3,va\ngc\nt cmd,o3,va\nt de,o3\n""" + tail)
+        # f_move_object with a string destination: the destination is loaded first, then the mover is tested
+        mk("move-to-unloaded-room-whose-create-destructs-the-mover", "script o3 create de,o2\nt ld,b0\nt mvs,o2,b1\n" + tail + "\nt fo,b1\nt fis,b1\n" + tail)
+        mk("move-to-unloaded-room-variants", """script o4 create mv,o2,o3\nscript o5 create de,o5\nscript o6 create err\nscript o7 create mv,o7,o2
+            t ld,b0\nt cl,b0\nt ec,o2\nt mvs,o2,b1\nsnap\nprobe\nt mvs,o3,b2\nsnap\nt mvs,o3,b3\nsnap\nt mvs,o2,b4\nsnap\nt mvs,o3,b1\nt mvs,o2,b1
+            t mvs,o3,nx\nt mvs,o3,bad\nt mvs,o9,b1\nt mvs,o4,b0\nt fis,b1\nt fis,b9\nt fis,nx\n""" + tail)
+        mk("move-by-string-into-own-inventory", "t ld,b0\nt ld,b1\nt mvs,o3,b0\nt mvs,o2,b1\nt mvs,o2,b0\n" + tail)
         mk("references-read-zero", """t ld,b0\nt cl,b0\nt kp,o3\nt rd\nscript o3 create kp,o2;rd\nt de,o3\nt rd\nt kp,o3\nt mv,o3,o2\nt mv,o2,o3\nt ec,o3\nt ln,o3,x\nt de,o3\ngc\nt rd\n""" + tail)
         mk("reload-after-destruct", "t ld,b0\nt cl,b0\nt de,o2\nt fo,b0\nt ld,b0\nt fo,b0\nt cl,b0\nt fo,b0#1\nt fo,b0#2\ngc\nt de,o4\nt ld,b0\n" + tail)
         mk("find-moves-to-front", "t ld,b0\nt ld,b1\nt ld,b2\nt ld,b3\nt ld,b4\nt ld,b5\nt ld,b6\nt ld,b7\nsnap\nt fo,b0\nt fo,b3\nt fo,b5\nsnap\nt de,o4\nt de,o9\n" + tail)
@@ -152,9 +158,9 @@ class C08(Prop):
         return B
 
     OPS = [("ld", 9), ("cl", 14), ("mv", 28), ("de", 9), ("ec", 14), ("dc", 2), ("ln", 4), ("fo", 5), ("fl", 3),
-           ("kp", 3), ("rd", 2), ("err", 1), ("aa", 9), ("cmd", 8)]
+           ("kp", 3), ("rd", 2), ("err", 1), ("aa", 9), ("cmd", 8), ("mvs", 10), ("fis", 3)]
     HOPS = [("ld", 5), ("cl", 8), ("mv", 24), ("de", 14), ("ec", 5), ("dc", 1), ("ln", 2), ("fo", 2), ("fl", 1),
-            ("kp", 2), ("rd", 2), ("err", 2), ("mvarg", 6), ("nop", 2), ("aa", 10), ("cmd", 3)]
+            ("kp", 2), ("rd", 2), ("err", 2), ("mvarg", 6), ("nop", 2), ("aa", 10), ("cmd", 3), ("mvs", 6), ("fis", 2)]
 
     def gen_op(self, rng, st, table, self_id=None):
         k = rng.weighted(table)
@@ -175,6 +181,22 @@ class C08(Prop):
             return "%s,%s" % (k, b)
         if k == "mv":
             return "mv,%s,%s" % (oid(), oid())
+        if k == "mvs":
+            # string destination: an already loaded blueprint, or (half of the time) one that the move has to load;
+            # its create() then often destructs / moves the mover or itself (scripts are registered by the caller)
+            b = rng.weighted([("b%d" % rng.below(st["nbp"]), 12), ("b%d" % (st["nbp"] + rng.below(40)), 12), ("nx", 1), ("bad", 1)])
+            mover = oid()
+            if table is self.OPS and rng.chance(2, 3):
+                nid = st["top"] + 1 + rng.below(2)
+                what = rng.weighted([("de,%s" % mover, 5), ("de,o%d" % nid, 2), ("mv,%s,%s" % (mover, oid()), 3),
+                                     ("mv,o%d,%s" % (nid, mover), 2), ("de,%s" % oid(), 1), ("err", 1)])
+                st.setdefault("extra_scripts", []).append("script o%d create %s" % (nid, what))
+            st["est"] += 1
+            if table is self.OPS:
+                st["top"] += 1 if rng.chance(1, 2) else 0
+            return "mvs,%s,%s" % (mover, b)
+        if k == "fis":
+            return "fis,%s" % rng.weighted([("b%d" % rng.below(st["nbp"]), 6), ("b%d" % (st["nbp"] + rng.below(40)), 6), ("nx", 1)])
         if k in ("de", "ec", "dc", "kp"):
             return "%s,%s" % (k, oid())
         if k == "aa":
@@ -251,6 +273,7 @@ class C08(Prop):
             elif rng.chance(1, 6):
                 body += ["snap", "probe"]
         body += ["snap", "probe", "gc", "snap", "probe"]
+        body += st.get("extra_scripts", [])
         return E.Case(cid, scripts_first(body), {"origin": "generated"})
 
     def generate(self, rng, n, tier):
@@ -277,6 +300,8 @@ class C08(Prop):
                     h["hooks_" + t[2]] += 1
                 elif t[0] == "err":
                     h["errors"] += 1
+                    if "destructed object" in l:
+                        h["moves_of_destructed_refused"] = h.get("moves_of_destructed_refused", 0) + 1
                     if "inside itself" in l:
                         h["moves_refused"] += 1
                 elif t[0] == "r" and len(t) > 1:
@@ -284,6 +309,8 @@ class C08(Prop):
                         h["moves_ok"] += 1
                     elif t[1] == "de" and t[-1] == "ok":
                         h["destructs"] += 1
+                    elif t[1] == "mvs" and len(t) > 5 and t[4] == "ok":
+                        h["string_moves_ok"] = h.get("string_moves_ok", 0) + 1
                     elif t[1] == "cmd" and t[-1] in ("0", "1"):
                         h["commands_hit" if t[-1] == "1" else "commands_miss"] += 1
                     elif t[1] == "aa" and t[-1] == "ok":
